@@ -62,29 +62,32 @@ def _crosscheck(text, st):
         raise tlc.MachineryError("fastdump disagrees with tlaparse on %r: %r vs %r" % (text[:200], a, b))
 
 
-def parse_dump(path, crosscheck=10):
-    """Yields one dict per state of a TLC -dump file."""
+def parse_dump(path, crosscheck=10, skip_containing=None):
+    """Yields one dict per state of a TLC -dump file (None for states whose text contains `skip_containing`)."""
     n = 0
+
+    def one(text):
+        nonlocal n
+        if skip_containing is not None and skip_containing in text:
+            return None
+        st = parse_state(text)
+        if n < crosscheck or n % 5000 == 0:
+            _crosscheck(text, st)
+        n += 1
+        return st
+
     with open(path, "r", encoding="utf-8") as f:
         buf = []
         for line in f:
             if line.startswith("State ") and line.rstrip().endswith(":"):
                 if buf:
-                    text = "".join(buf)
-                    st = parse_state(text)
-                    if n < crosscheck or n % 5000 == 0:
-                        _crosscheck(text, st)
-                    n += 1
-                    yield st
+                    yield one("".join(buf))
                 buf = []
             else:
                 buf.append(line)
         text = "".join(buf)
         if text.strip():
-            st = parse_state(text)
-            if n < crosscheck:
-                _crosscheck(text, st)
-            yield st
+            yield one(text)
 
 
 _SIM_STATE = re.compile(r"^STATE_(\d+) ==\s*$", re.M)
